@@ -1311,8 +1311,6 @@ class Pregex():
         :raises CannotBeRepeatedException: Parameter ``n`` has a value of greater \
             than one, while this instance represents a non-repeatable pattern.
         '''
-        if not self._is_repeatable():
-            raise _ex.CannotBeRepeatedException(self)
         if not isinstance(n, int) or isinstance(n, bool):
             message = "Provided argument \"n\" is not an integer."
             raise _ex.InvalidArgumentTypeException(message)
@@ -1337,8 +1335,6 @@ class Pregex():
         :raises CannotBeRepeatedException: Parameter ``n`` has a value of greater \
             than one, while this instance represents a non-repeatable pattern.
         '''
-        if not self._is_repeatable():
-            raise _ex.CannotBeRepeatedException(self)
         if not isinstance(n, int) or isinstance(n, bool):
             message = "Provided argument \"n\" is not an integer."
             raise _ex.InvalidArgumentTypeException(message)
